@@ -1,7 +1,7 @@
 #!/bin/bash
 # usage: confirm_seed.sh <prop> <n>   -- confirms a sub-agent's seeded change in its scratch worktree /tmp/wt_<prop>
 # checks: patch applies; builds; existing tests pass with patch; demo fails with patch; demo passes without
-prop=$1; n=$2; wt=/tmp/wt_$prop; d=$wt/seeded/$n
+prop=$1; n=$2; sub=${3:-seeded}; wt=/tmp/wt_$prop; d=$wt/$sub/$n
 export CARGO_TARGET_DIR=$wt/target CARGO_NET_OFFLINE=true
 cd $wt || exit 9
 git checkout -q -- . 
